@@ -1,0 +1,89 @@
+//go:build verif
+
+package aggregator
+
+// Verification hook (build tag `verif` only): canonical dump of EVERY field of the params the
+// in-memory aggregator context holds (VerifDump prints only the scalars and the token feeders).
+// Read-only; no production code path calls it.
+
+import (
+	"fmt"
+	"sort"
+	"strings"
+)
+
+func verifEndpoint(m map[uint64]string) string {
+	ks := make([]uint64, 0, len(m))
+	for k := range m {
+		ks = append(ks, k)
+	}
+	sort.Slice(ks, func(i, j int) bool { return ks[i] < ks[j] })
+	var ps []string
+	for _, k := range ks {
+		ps = append(ps, fmt.Sprintf("%d=%q", k, m[k]))
+	}
+	return strings.Join(ps, " ")
+}
+
+// VerifDumpParams renders chains, tokens, sources, rules, token feeders and the scalar fields of
+// agc.params ("AGC:nil" / "P:nil" when absent).
+func (agc *AggregatorContext) VerifDumpParams() string {
+	if agc == nil {
+		return "AGC:nil"
+	}
+	p := agc.params
+	if p == nil {
+		return "P:nil"
+	}
+	var b strings.Builder
+	fmt.Fprintf(&b, "S:%d,%d,%d,%d,%d,%d", p.MaxNonce, p.ThresholdA, p.ThresholdB, p.MaxDetId, int32(p.Mode), p.MaxSizePrices)
+	b.WriteString("|C:")
+	for i, c := range p.Chains {
+		if c == nil {
+			fmt.Fprintf(&b, "%d:nil;", i)
+			continue
+		}
+		fmt.Fprintf(&b, "%d:%q,%q;", i, c.Name, c.Desc)
+	}
+	b.WriteString("|T:")
+	for i, t := range p.Tokens {
+		if t == nil {
+			fmt.Fprintf(&b, "%d:nil;", i)
+			continue
+		}
+		fmt.Fprintf(&b, "%d:%q,%d,%q,%d,%v,%q;", i, t.Name, t.ChainID, t.ContractAddress, t.Decimal, t.Active, t.AssetID)
+	}
+	b.WriteString("|O:")
+	for i, s := range p.Sources {
+		if s == nil {
+			fmt.Fprintf(&b, "%d:nil;", i)
+			continue
+		}
+		e := "-"
+		if s.Entry != nil {
+			e = "off[" + verifEndpoint(s.Entry.Offchain) + "]on[" + verifEndpoint(s.Entry.Onchain) + "]"
+		}
+		fmt.Fprintf(&b, "%d:%q,%v,%v,%s;", i, s.Name, s.Valid, s.Deterministic, e)
+	}
+	b.WriteString("|R:")
+	for i, r := range p.Rules {
+		if r == nil {
+			fmt.Fprintf(&b, "%d:nil;", i)
+			continue
+		}
+		n := "-"
+		if r.Nom != nil {
+			n = fmt.Sprintf("%v/%d", r.Nom.SourceIDs, r.Nom.Minimum)
+		}
+		fmt.Fprintf(&b, "%d:%v,%s;", i, r.SourceIDs, n)
+	}
+	b.WriteString("|F:")
+	for i, f := range p.TokenFeeders {
+		if f == nil {
+			fmt.Fprintf(&b, "%d:nil;", i)
+			continue
+		}
+		fmt.Fprintf(&b, "%d:%d,%d,%d,%d,%d,%d;", i, f.TokenID, f.RuleID, f.StartRoundID, f.StartBaseBlock, f.Interval, f.EndBlock)
+	}
+	return b.String()
+}
